@@ -3,6 +3,7 @@ package sim
 import (
 	"context"
 	"fmt"
+	"os"
 	"sort"
 	"time"
 
@@ -18,6 +19,8 @@ import (
 
 // Servers is a simulated cluster of REAL anndb servers (real Server.setup(): zero group, shared
 // group, nodes manager, dataset manager, allocator; partitions with real raft groups).
+var debugNet = os.Getenv("VERIF_DEBUG_NET") != ""
+
 type Servers struct {
 	S          *vrt.Sched
 	Nodes      []*world.SNode
@@ -176,6 +179,9 @@ func (w *Servers) intercept(target, method string, ctx context.Context, req inte
 		return true, nil, err
 	}
 	from := nodeOf(vrt.CurrentName())
+	if debugNet {
+		fmt.Fprintf(os.Stderr, "    send %d>%d %s t%d i%d c%d n%d rej=%v\n", from, m.To, m.Type, m.Term, m.Index, m.Commit, len(m.Entries), m.Reject)
+	}
 	if w.FailSend != nil && w.FailSend(from, m) {
 		// the RPC that carries this message fails (the sender is told so)
 		return true, nil, fakes.ErrUnavailable
@@ -213,7 +219,10 @@ func (w *Servers) Deliver(m *Msg) {
 	w.Call(m.To, "deliver", func() {
 		ctx, cancel := vrt.WithCancel(context.Background())
 		defer cancel()
-		reg.Raft.Receive(ctx, m.Raw)
+		_, err := reg.Raft.Receive(ctx, m.Raw)
+		if debugNet {
+			fmt.Fprintf(os.Stderr, "    deliver %d>%d %s t%d i%d c%d n%d rej=%v -> %v\n", m.From, m.To, m.M.Type, m.M.Term, m.M.Index, m.M.Commit, len(m.M.Entries), m.M.Reject, err)
+		}
 	})
 }
 
